@@ -127,7 +127,8 @@ theorem readAll_written (segSize : Nat) (hseg : segSize % 8 = 0) (md : Option By
   have hbuf := Writer.flush_buf ((Writer.create segSize md).calls h)
   have hsegsz : ((Writer.create segSize md).calls h).flush.segSize % 8 = 0 := by
     rw [Writer.flush_segSize, Writer.calls_segSize, hsz0]; exact hseg
-  obtain ⟨segs, hfiles, hflat, _, hrl⟩ := hIf.readback hbuf hsegsz
+  obtain ⟨segs, hfiles, hmap, _, hrl⟩ := hIf.readback hbuf hsegsz
+  have hflat : (segs.map (·.1)).flatten = g'.all := by rw [hmap]; rfl
   obtain ⟨ex, hex⟩ := readFuel_enough 0 segs
   obtain ⟨d', hd1, hd2, hd3⟩ := hrl ex
   -- the dispatch over the records
